@@ -419,25 +419,22 @@ impl Scala {
     }
 
     fn begin_package_object(&mut self, w: &mut dyn Write) -> std::io::Result<()> {
-        match self.package.rsplit_once('.') {
-            None => {}
-            Some((_parent, last)) => {
-                writeln!(w, "package object {} {{", last)?;
-                writeln!(w)?;
-            }
-        };
+        writeln!(w, "package object {} {{", self.last_package_segment())?;
+        writeln!(w)?;
         Ok(())
     }
 
     fn begin_package(&mut self, w: &mut dyn Write) -> std::io::Result<()> {
-        match self.package.rsplit_once('.') {
-            None => {}
-            Some((_parent, last)) => {
-                writeln!(w, "package {} {{", last)?;
-                writeln!(w)?;
-            }
-        };
+        writeln!(w, "package {} {{", self.last_package_segment())?;
+        writeln!(w)?;
         Ok(())
+    }
+
+    /// The innermost package: everything after the last dot, or the whole name when it has none.
+    fn last_package_segment(&self) -> &str {
+        self.package
+            .rsplit_once('.')
+            .map_or(self.package.as_str(), |(_parent, last)| last)
     }
 
     fn write_unsigned_aliases(&mut self, w: &mut dyn Write) -> std::io::Result<()> {
